@@ -411,6 +411,30 @@ func Lock(l sync.Locker, site int) {
 	// package-level object.)
 }
 
+// TryLock never blocks: it succeeds iff the simulated lock is free.
+func TryLock(l sync.Locker, site int) bool {
+	s := S
+	t := (*Task)(nil)
+	if s != nil {
+		t = s.cur()
+	}
+	if s == nil || t == nil {
+		type tryLocker interface{ TryLock() bool }
+		return l.(tryLocker).TryLock()
+	}
+	s.mu.Lock()
+	defer s.mu.Unlock()
+	st := s.ls(l)
+	if st.owner != nil || len(st.readers) > 0 {
+		return false
+	}
+	st.owner = t
+	t.held++
+	t.vc.join(st.relW)
+	t.vc.join(st.relR)
+	return true
+}
+
 func Unlock(l sync.Locker) {
 	s := S
 	if s == nil {
